@@ -55,10 +55,10 @@ func (r *Rng) Next() uint64 {
 	z = (z ^ (z >> 27)) * 0x94D049BB133111EB
 	return z ^ (z >> 31)
 }
-func (r *Rng) Intn(n int) int         { return int(r.Next() % uint64(n)) }
-func (r *Rng) Range(a, b int) int     { return a + r.Intn(b-a+1) }
-func (r *Rng) Chance(pct int) bool    { return r.Intn(100) < pct }
-func (r *Rng) Pick(xs ...int) int     { return xs[r.Intn(len(xs))] }
+func (r *Rng) Intn(n int) int      { return int(r.Next() % uint64(n)) }
+func (r *Rng) Range(a, b int) int  { return a + r.Intn(b-a+1) }
+func (r *Rng) Chance(pct int) bool { return r.Intn(100) < pct }
+func (r *Rng) Pick(xs ...int) int  { return xs[r.Intn(len(xs))] }
 
 func Atoi(s string) int { n, _ := strconv.Atoi(s); return n }
 
